@@ -1456,10 +1456,12 @@ class Parameter(_ParameterBase):
     def _trigger_event(self, attribute, old, new):
         event = Event(what=attribute, name=self.name, obj=None, cls=self.owner,
                       old=old, new=new, type=None)
-        for watcher in self.watchers[attribute]:
-            self.owner.param._call_watcher(watcher, event)
-        if not self.owner.param._BATCH_WATCH:
-            self.owner.param._batch_call_watchers()
+        try:
+            for watcher in self.watchers[attribute]:
+                self.owner.param._call_watcher(watcher, event)
+        finally:
+            if not self.owner.param._BATCH_WATCH:
+                self.owner.param._batch_call_watchers()
 
     def __getattribute__(self, key):
         """
@@ -1622,10 +1624,14 @@ class Parameter(_ParameterBase):
                       old=_old, new=val, type=None)
 
         # Copy watchers here since they may be modified inplace during iteration
-        for watcher in sorted(watchers, key=lambda w: w.precedence):
-            obj.param._call_watcher(watcher, event)
-        if not obj.param._BATCH_WATCH:
-            obj.param._batch_call_watchers()
+        try:
+            for watcher in sorted(watchers, key=lambda w: w.precedence):
+                obj.param._call_watcher(watcher, event)
+        finally:
+            # Also if a watcher raised: events queued by the watchers that
+            # already ran must not wait for some unrelated later assignment
+            if not obj.param._BATCH_WATCH:
+                obj.param._batch_call_watchers()
 
     def _validate_value(self, value, allow_None):
         """Validate the parameter value against constraints.
@@ -2822,20 +2828,28 @@ class Parameters:
         Batch call a set of watchers based on the parameter value
         settings in kwargs using the queued Event and watcher objects.
         """
-        while self_._events:
-            event_dict = OrderedDict([((event.name, event.what), event)
-                                      for event in self_._events])
-            watchers = self_._state_watchers[:]
-            self_._events = []
-            self_._state_watchers = []
+        try:
+            while self_._events:
+                event_dict = OrderedDict([((event.name, event.what), event)
+                                          for event in self_._events])
+                watchers = self_._state_watchers[:]
+                self_._events = []
+                self_._state_watchers = []
 
-            for watcher in sorted(watchers, key=lambda w: w.precedence):
-                events = [self_._update_event_type(watcher, event_dict[(name, watcher.what)],
-                                                   self_._TRIGGER)
-                          for name in watcher.parameter_names
-                          if (name, watcher.what) in event_dict]
-                with _batch_call_watchers(self_.self_or_cls, enable=watcher.queued, run=False):
-                    self_._execute_watcher(watcher, events)
+                for watcher in sorted(watchers, key=lambda w: w.precedence):
+                    events = [self_._update_event_type(watcher, event_dict[(name, watcher.what)],
+                                                       self_._TRIGGER)
+                              for name in watcher.parameter_names
+                              if (name, watcher.what) in event_dict]
+                    with _batch_call_watchers(self_.self_or_cls, enable=watcher.queued, run=False):
+                        self_._execute_watcher(watcher, events)
+        except BaseException:
+            # A watcher failed: whatever was queued during this flush must
+            # not be delivered by some unrelated later assignment.
+            if not self_._BATCH_WATCH:
+                self_._events = []
+                self_._state_watchers = []
+            raise
     # Please update the docstring with better description and examples
     # I've (MarcSkovMadsen) not been able to understand this. Its probably because I lack context.
     # Its not mentioned in the documentation.
